@@ -230,6 +230,251 @@ fn strip_parens(src: &str, mut a: usize, mut b: usize) -> (usize, usize, &str) {
     }
 }
 
+// (2c) diagnostics of programs with one planted fault (explicit programs, so every binder says
+// what it is). Oracles, all on the rendered diagnostic alone:
+//  - a type diagnostic's excerpt is the listing of the range of a subexpression - of the source
+//    tree as the printer laid it out, or at least of a node of gram's own parse tree (whose
+//    ranges are the node-slices section's business, recorded finding included);
+//  - "This has type `X`": if the marked subexpression has an evident type (a literal, an
+//    arithmetic or comparison node, a type former, a lambda, a variable whose binder is annotated
+//    `int`, `bool` or `type`), X must be that type; "This is not a type" must not mark a type
+//    former, "when a function was expected" must not mark a lambda;
+//  - "The definition of `a` references `b` ...": the excerpt is the right-hand side of a
+//    definition named `a`.
+fn paren_variants(src: &str, a: usize, b: usize) -> Vec<(usize, usize)> {
+    let (mut a, mut b, _) = strip_parens(src, a, b);
+    let mut v = vec![];
+    loop {
+        v.push((a, b));
+        let before = src[..a].trim_end();
+        let after = src[b..].trim_start();
+        if before.ends_with('(') && after.starts_with(')') {
+            a = before.len() - 1;
+            b = src.len() - after.len() + 1;
+        } else {
+            break;
+        }
+    }
+    v
+}
+
+fn all_ranges(t: &Term, out: &mut Vec<(usize, usize)>) {
+    if let Some(r) = t.source_range {
+        out.push((r.start, r.end));
+    }
+    match &t.variant {
+        Variant::Lambda(_, _, a, b) | Variant::Pi(_, _, a, b) | Variant::Application(a, b) | Variant::Sum(a, b) | Variant::Difference(a, b) | Variant::Product(a, b) | Variant::Quotient(a, b) | Variant::LessThan(a, b) | Variant::LessThanOrEqualTo(a, b) | Variant::EqualTo(a, b) | Variant::GreaterThan(a, b) | Variant::GreaterThanOrEqualTo(a, b) => {
+            all_ranges(a, out);
+            all_ranges(b, out);
+        }
+        Variant::Let(defs, body) => {
+            for (_, a, d) in defs {
+                all_ranges(a, out);
+                all_ranges(d, out);
+            }
+            all_ranges(body, out);
+        }
+        Variant::Negation(a) => all_ranges(a, out),
+        Variant::If(a, b, c) => {
+            all_ranges(a, out);
+            all_ranges(b, out);
+            all_ranges(c, out);
+        }
+        _ => {}
+    }
+}
+
+// Evident types by node id (the printer's pre-order numbering), and the right-hand sides of
+// definitions by name.
+fn evident_types(h: &H) -> (Vec<Option<&'static str>>, Vec<(String, usize)>) {
+    fn ground(h: &H) -> Option<&'static str> {
+        match h.strip() {
+            H::Int => Some("int"),
+            H::Bool => Some("bool"),
+            H::Type => Some("type"),
+            _ => None,
+        }
+    }
+    fn go(h: &H, env: &mut Vec<(String, Option<&'static str>)>, out: &mut Vec<Option<&'static str>>, defs: &mut Vec<(String, usize)>, in_chain: bool) {
+        let id = out.len();
+        out.push(None);
+        let ev: Option<&'static str> = match h {
+            H::Lit(_) | H::Neg(_) => Some("int"),
+            H::Bin(op, ..) => Some(if op.is_arith() { "int" } else { "bool" }),
+            H::True | H::False => Some("bool"),
+            H::Int | H::Bool | H::Type | H::Pi(..) => Some("type"),
+            H::Lam(_, false, ..) => Some("function"),
+            // `_` never binds and, as an expression, is a fresh hole
+            H::Var(n) if n != "_" => env.iter().rev().find(|(a, _)| a == n).and_then(|(_, t)| *t),
+            _ => None,
+        };
+        match h {
+            H::Paren(x) => {
+                go(x, env, out, defs, false);
+                out[id] = out[id + 1];
+                return;
+            }
+            H::Lam(n, _, d, b) => {
+                if let Some(d) = d {
+                    go(d, env, out, defs, false);
+                }
+                env.push((n.clone(), d.as_ref().and_then(|d| ground(d))));
+                go(b, env, out, defs, false);
+                env.pop();
+            }
+            H::Pi(n, _, d, b) => {
+                go(d, env, out, defs, false);
+                env.push((n.clone(), ground(d)));
+                go(b, env, out, defs, false);
+                env.pop();
+            }
+            H::App(a, b) | H::Bin(_, a, b) => {
+                go(a, env, out, defs, false);
+                go(b, env, out, defs, false);
+            }
+            H::Let(n, a, d, b) => {
+                // the whole chain is in scope everywhere in the group
+                let mut pushed = 0;
+                if !in_chain {
+                    let mut cur = h;
+                    while let H::Let(nm, an, _, bb) = cur {
+                        env.push((nm.clone(), an.as_ref().and_then(|x| ground(x))));
+                        pushed += 1;
+                        cur = bb;
+                    }
+                }
+                if let Some(a) = a {
+                    go(a, env, out, defs, false);
+                }
+                defs.push((n.clone(), out.len()));
+                go(d, env, out, defs, false);
+                go(b, env, out, defs, matches!(**b, H::Let(..)));
+                env.truncate(env.len() - pushed);
+            }
+            H::Neg(a) => go(a, env, out, defs, false),
+            H::If(a, b, c) => {
+                go(a, env, out, defs, false);
+                go(b, env, out, defs, false);
+                go(c, env, out, defs, false);
+            }
+            _ => {}
+        }
+        out[id] = ev;
+    }
+    let (mut out, mut defs) = (vec![], vec![]);
+    go(h, &mut vec![], &mut out, &mut defs, false);
+    (out, defs)
+}
+
+fn check_type_fault(ctx: &mut Ctx, r: &mut Rng, idx: u64) {
+    use crate::gen_prog::{Mode, gen_program};
+    let p = gen_program(r, Mode::Explicit);
+    let Some((m, kind)) = crate::perturb::perturb(&p.h, r) else { return };
+    let printed = print(&m, &Style::varied(r), idx);
+    let src = &printed.text;
+    ctx.eval();
+    let res = guard(|| {
+        let toks = match tokenize(None, src) {
+            Ok(t) => t,
+            Err(_) => return (vec![], vec![], false),
+        };
+        let t = match parse(None, src, &toks[..], &[]) {
+            Ok(t) => t,
+            Err(es) => return (es.iter().map(|x| x.message.clone()).collect::<Vec<_>>(), vec![], false),
+        };
+        let mut ranges = vec![];
+        all_ranges(&t, &mut ranges);
+        let (mut tc, mut dc) = (vec![], vec![]);
+        match crate::type_checker::type_check(None, src, &t, &mut tc, &mut dc) {
+            Ok(_) => (vec![], ranges, true),
+            Err(es) => (es.iter().map(|x| x.message.clone()).collect::<Vec<_>>(), ranges, true),
+        }
+    });
+    let Ok((msgs, gram_ranges, parsed)) = res else { return }; // crashes are C14's business
+    if msgs.is_empty() {
+        ctx.count("planted-fault:no-diagnostic");
+        return;
+    }
+    let (evident, defs) = evident_types(&m);
+    if evident.len() != printed.spans.len() {
+        ctx.count("planted-fault:numbering-differs(skipped)");
+        return;
+    }
+    for msg in &msgs {
+        let Some(ex) = excerpt_of(msg) else {
+            ctx.count("planted-fault:diagnostic-without-excerpt");
+            continue;
+        };
+        let head = msg.lines().next().unwrap_or("");
+        if !parsed {
+            // definition-order diagnostics name the definition whose right-hand side is shown
+            if let Some(rest) = head.split("The definition of `").nth(1) {
+                let name = rest.split('`').next().unwrap_or("");
+                let ok = defs.iter().filter(|(n, _)| n == name).any(|(_, id)| printed.span_of(*id).is_some_and(|s| paren_variants(src, s.start, s.end).iter().any(|(a, b)| rlisting(src, *a, *b).as_deref() == Some(ex))));
+                // the recorded finding about ranges of re-associated chains: the same range minus
+                // leading `(` or trailing `)`
+                let d15 = !ok
+                    && defs.iter().filter(|(n, _)| n == name).any(|(_, id)| {
+                        printed.span_of(*id).is_some_and(|s| {
+                            let (a0, b0, _) = strip_parens(src, s.start, s.end);
+                            let inner = &src[a0..b0];
+                            let a1 = a0 + (inner.len() - inner.trim_start_matches(|c: char| c == '(' || c.is_whitespace()).len());
+                            let b1 = b0 - (inner.len() - inner.trim_end_matches(|c: char| c == ')' || c.is_whitespace()).len());
+                            [(a1, b0), (a0, b1), (a1, b1)].iter().any(|(a, b)| a < b && (*a, *b) != (a0, b0) && rlisting(src, *a, *b).as_deref() == Some(ex))
+                        })
+                    });
+                if ok {
+                    ctx.count("definition-order-diagnostic:marks-the-named-definition");
+                    ctx.nontrivial(hash_str(msg));
+                } else if d15 {
+                    viol(ctx, "range:starts-or-ends-inside-parentheses-of-reassociated-chain", &format!("the excerpt of a definition-order diagnostic shows the definition of `{name}` without its leading `(` or trailing `)`:\n{}", clip(msg, 500)), src);
+                    return;
+                } else {
+                    viol(ctx, "definition-order-diagnostic-excerpt", &format!("the excerpt does not show the right-hand side of a definition named `{name}`:\n{}", clip(msg, 700)), src);
+                    return;
+                }
+            }
+            continue;
+        }
+        ctx.nontrivial(hash_str(msg));
+        let marked: Vec<usize> = printed.spans.iter().filter(|s| paren_variants(src, s.start, s.end).iter().any(|(a, b)| rlisting(src, *a, *b).as_deref() == Some(ex))).map(|s| s.node).collect();
+        if marked.is_empty() {
+            if gram_ranges.iter().any(|(a, b)| rlisting(src, *a, *b).as_deref() == Some(ex)) {
+                ctx.count("type-diagnostic:marks-a-node-of-gram's-tree-only");
+                continue;
+            }
+            viol(ctx, "type-diagnostic-range-is-no-subexpression", &format!("the excerpt of a type diagnostic ({kind}) is not the listing of any subexpression of the program:\n{}", clip(msg, 700)), src);
+            return;
+        }
+        ctx.count("type-diagnostic:marks-a-subexpression");
+        // what the message says about the marked text
+        let claimed = head.split("This has type `").nth(1).and_then(|x| x.split('`').next());
+        let ev: Vec<&'static str> = marked.iter().filter_map(|id| evident[*id]).collect();
+        // several nodes can share a listing (a node and its only child in parentheses): they
+        // have the same evident type or none
+        let Some(e0) = ev.first().copied() else {
+            ctx.count("type-diagnostic:marked-text-has-no-evident-type");
+            continue;
+        };
+        let bad = if let Some(x) = claimed {
+            match e0 {
+                "function" => !x.contains("->"),
+                t => x != t,
+            }
+        } else if head.contains("This is not a type") {
+            e0 == "type"
+        } else {
+            false
+        } || (head.contains("when a function was expected") && e0 == "function");
+        if bad {
+            viol(ctx, "type-diagnostic-marks-other-text", &format!("the diagnostic says `{}` but the marked text evidently has type {e0}:\n{}", clip(head, 200), clip(msg, 700)), src);
+            return;
+        }
+        ctx.count("type-diagnostic:claim-agrees-with-evident-type");
+    }
+    ctx.count(&format!("planted-fault:{kind}"));
+}
+
 // (2b) stray symbol
 fn check_stray_symbol(ctx: &mut Ctx, base: &str, r: &mut Rng) {
     let Ok(toks) = crate::rtok::rtok(base) else { return };
@@ -425,8 +670,9 @@ impl Prop for C15P {
                 sec("scoping-faults", tier.pick(8_000, 160_000)),
                 sec("stray-symbols", tier.pick(8_000, 160_000)),
                 sec("node-slices", tier.pick(6_000, 120_000)),
+                sec("type-faults", tier.pick(12_000, 240_000)),
             ],
-            "listing() on random texts (0-120 preceding lines, 1-4-byte characters, CRLF, trailing whitespace, comments) with random ranges on character boundaries; unbound names and re-bound binders injected into random programs printed with varied layout, and stray symbols inserted at token boundaries: the excerpt must be the specified listing of exactly the injected text; every node range of parsed programs re-parsed in the scope at that point; non-trivial = distinct (text, range) / diagnostic / program",
+            "listing() on random texts (0-120 preceding lines, 1-4-byte characters, CRLF, trailing whitespace, comments) with random ranges on character boundaries; unbound names and re-bound binders injected into random programs printed with varied layout, and stray symbols inserted at token boundaries: the excerpt must be the specified listing of exactly the injected text; every node range of parsed programs re-parsed in the scope at that point; diagnostics of explicit programs with one planted fault: each type diagnostic marks a subexpression whose evident type (literals, operators, type formers, lambdas, variables with ground annotations) agrees with what the message says about it, each definition-order diagnostic shows the definition it names; non-trivial = distinct (text, range) / diagnostic / program",
         );
         p.assumptions = vec![
             "characters are Unicode scalar values; generated fault lines avoid double-width and zero-width code points".into(),
@@ -461,6 +707,10 @@ impl Prop for C15P {
                 if let Some((s, a, b)) = hand.get(idx as usize) {
                     check_listing(ctx, s, *a, *b);
                 }
+            }
+            "type-faults" => {
+                let mut r = Rng::for_case(ctx.seed, 5, idx);
+                check_type_fault(ctx, &mut r, idx);
             }
             "listing-direct" => {
                 let mut r = Rng::for_case(ctx.seed, 1, idx);
